@@ -247,6 +247,14 @@ func (env *Env) callSpec(x *ast.CallExpr, fn *types.Func, spec *FuncSpec, recvEx
 	}
 	calleePkg := c.eng.PkgByName[spec.Pkg]
 	preEnv := &Env{c: c, st: env.st, names: pre, pkg: calleePkg, foreign: true}
+	// the callee's lets are evaluated in the pre-state
+	for _, l := range spec.Lets {
+		v := preEnv.evalSpecString(l.Expr)
+		if v.Loc == nil {
+			v = Val{T: c.nameTerm(env.st, l.Name, preEnv.term(v, x.Pos())), Const: v.Const}
+		}
+		pre[l.Name] = v
+	}
 	props := c.spec.Props
 	for i, r := range spec.Requires {
 		lbl := r.Label
@@ -540,7 +548,7 @@ func (env *Env) appendCall(x *ast.CallExpr) Val {
 	ss := env.ss()
 	rt := env.typeOf(x)
 	sort := ss.SortOf(rt)
-	si := ss.Info(sort)
+	_ = ss.Info(sort)
 	base := env.eval(x.Args[0])
 	var s Term
 	if base.IsNil {
@@ -566,11 +574,13 @@ func (env *Env) appendCall(x *ast.CallExpr) Val {
 		}
 		lt := ss.slLen(t)
 		env.st.Assume(and(app("<=", "0", lt.S), app("<=", lt.S, MAXLEN)))
-		arr := env.c.fresh("cat", fmt.Sprintf("(Array Int %s)", si.Elem))
-		q := fmt.Sprintf("(forall ((j!q Int)) (! (=> (and (<= 0 j!q) (< j!q (+ %s %s))) (= (select %s j!q) (ite (< j!q %s) (select %s j!q) (select %s (- j!q %s))))) :pattern ((select %s j!q))))",
-			ln.S, lt.S, arr.S, ln.S, ss.slArr(s), ss.slArr(t), ln.S, arr.S)
-		env.st.Assume(q)
-		return Val{T: ss.mkSlice(sort, arr.S, app("+", ln.S, lt.S), "true"), GoT: rt}
+		// result: a fresh slice r with the named concatenation predicate (opaque but congruent in the QF stage)
+		r := env.c.fresh("cat", sort)
+		sN := env.c.nameTerm(env.st, "catl", s)
+		tN := env.c.nameTerm(env.st, "catr", t)
+		env.st.Assume(app(ss.CatPred(sort), r.S, sN.S, tN.S))
+		env.st.Assume(ss.slOwn(r))
+		return Val{T: r, GoT: rt}
 	}
 	arr := ss.slArr(s)
 	n := 0
@@ -822,6 +832,9 @@ func (env *Env) specCall(x *ast.CallExpr) Val {
 	case "errno":
 		v := env.term(arg(0), x.Pos())
 		return Val{T: Term{app("I.error.errno.code", v.S), SBV64}}
+	case "iscat":
+		r, a, b := env.term(arg(0), x.Pos()), env.term(arg(1), x.Pos()), env.term(arg(2), x.Pos())
+		return Val{T: Term{app(ss.CatPred(r.Sort), r.S, a.S, b.S), SBool}}
 	case "nonnil":
 		v := arg(0)
 		if v.Loc != nil {
